@@ -89,6 +89,7 @@ def main():
   t0 = time.time()
   rng = np.random.default_rng(args.seed)
   tried = 0
+  skipped_f15 = 0
   # stateful models (an RNN cell with its hidden state in a variable tensor, between dynamically quantised FULLY_CONNECTED ops)
   # validated on several inputs: "averaged over the test inputs" means every input is run from the initial state
   nstateful = 12 if args.tier == "quick" else 100
@@ -138,6 +139,12 @@ def main():
         continue
       model, qmodel, info = impl["in_bytes"], impl["out_bytes"], impl["info"]
       nsamples = 2
+      # known finding F15 (C13 / C06): dynamic-range DEPTHWISE_CONV_2D with tensor-wise weights is accepted although the hybrid kernel
+      # reads per-channel scales - its output is garbage that differs from run to run, so two interpreter runs of such a model
+      # cannot be compared value by value; those models are not used here
+      if pipeline.has_f15(scn, info["codes"]):
+        skipped_f15 += 1
+        continue
     inp, outp = project.project(model), project.project(qmodel)
     for pair_kind, tgt_model, tgt_proj in (("quantized", qmodel, outp), ("self", model, inp)):
       mname = "mse" if (tried + (pair_kind == "self")) % 2 else "median_diff_ratio"
@@ -225,7 +232,7 @@ def main():
       "states": r.distinct + ro.distinct, "transitions": r.generated + ro.generated, "traces_validated_against_impl": len(obs),
       "comparison_values_checked": sum(len(o["valok"]) for o in obs), "metric_law_vectors": nlaw,
       "evaluations": len(obs), "distinct_nontrivial": sum(1 for o in obs if not o["self"]),
-      "stateful_models": nstateful, "int64_bias_models": sum(1 for m in meta if m["scenario"].get("big64")) // 2,
+      "skipped_nondeterministic_kernel_F15": skipped_f15, "stateful_models": nstateful, "int64_bias_models": sum(1 for m in meta if m["scenario"].get("big64")) // 2,
       "rule": "random 2-5 operator scenarios (1-2 signatures) quantized under random per-op modes, plus stateful models (RNN cell with a variable "
               "state tensor between dynamically quantised FULLY_CONNECTED ops, 3 test inputs); each compared with its quantized version and "
               "with itself, alternating mse / median_diff_ratio, 2 test inputs; non-trivial = quantized pair",
